@@ -492,7 +492,11 @@ def line_targets(lab, deco):
 
 def run_lines(sh, lab):
     texts = [("plain", "hello world", "hello world", "hello world"), ("tagged", "<b>bold</b> x", "\x1b[1mbold\x1b[0m x", "bold x"),
-             ("multi", "l1\nl2", "l1\nl2", "l1\nl2"), ("unicode", "é語", "é語", "é語")]
+             ("multi", "l1\nl2", "l1\nl2", "l1\nl2"), ("unicode", "é語", "é語", "é語"),
+             # blanks are text: whitespace-only lines, trailing blanks and tabs, other separators inside the line
+             ("blanks", "   ", "   ", "   "), ("trailing-blanks", "name:  ", "name:  ", "name:  "), ("tabs", "col1\tcol2\t", "col1\tcol2\t", "col1\tcol2\t"),
+             ("tab-only", "\t", "\t", "\t"), ("nbsp", "a\xa0", "a\xa0", "a\xa0"), ("cr-inside", "10%\r100% done", "10%\r100% done", "10%\r100% done"),
+             ("form-feed", "page\x0cnext ", "page\x0cnext ", "page\x0cnext "), ("empty", "", "", "")]
     for n in (8191, 8192, 8193, 9000, 12287, 12288, 20000, 70000):
         # long texts: nothing is cut or re-chunked, whatever the size
         texts.append(("long-%d" % n, "x" * n, "x" * n, "x" * n))
@@ -549,8 +553,10 @@ def probe(sh, io, so, se, ind_out, ind_err, case, where):
     io.write_line("p1\n\np3")
     io.error_line("e1")
     io.output.write("w1\n")
+    # a line is what ends in a line feed: other separators (carriage return, form feed, U+2028, ...) are characters of the line
+    io.error_line("10%\r100%\x0cdone\u2028x\x85y")
     want_o = "%sp1\n\n%sp3\n%sw1\n" % (" " * ind_out, " " * ind_out, " " * ind_out)
-    want_e = "%se1\n" % (" " * ind_err)
+    want_e = "%se1\n%s10%%\r100%%\x0cdone\u2028x\x85y\n" % (" " * ind_err, " " * ind_err)
     sh.count("indent_probes")
     if so.fetch() != want_o or se.fetch() != want_e:
         sh.violate("indentation", case, "%s: wrote %r / %r, expected %r / %r" % (where, so.fetch(), se.fetch(), want_o, want_e))
